@@ -1486,13 +1486,21 @@ Lemma i3_evaluate_spec s ns x s' r t :
   I3Inv s -> i3_evaluate W C s ns x = (s', r, t) ->
   sstep W C (abs W (i_base W s)) (Evaluate W ns x) = (abs W (i_base W s'), OEval W r) /\ I3Inv s'.
 Proof.
-  intros HInv. pose proof HInv as (HI & HN & HC). unfold i3_evaluate, sstep, abs; cbn [ss_view ss_evd ss_srcf ss_cur ss_nsg].
-  set (st := i_base W s) in HI, HN, HC |- *.
+  intros HInv0. destruct HInv0 as (HI0 & HN0 & HC0).
+  rewrite <- (sstep_eval_forget W C (i_base W s)).
+  destruct (forget_inv W C (i_base W s) HI0 HN0) as (HI & HN & Hnone & _).
+  assert (HC : ic_ok (s_sid (forget_nsg W (i_base W s))) (s_view (forget_nsg W (i_base W s)))
+                 (s_ext (forget_nsg W (i_base W s))) (s_evd (forget_nsg W (i_base W s))) (i_c W s)) by exact HC0.
+  assert (HInv : I3Inv (mki3 W (forget_nsg W (i_base W s)) (i_c W s))) by (split; [exact HI | split; [exact HN | exact HC]]).
+  unfold i3_evaluate, sstep, abs; cbn [ss_view ss_evd ss_srcf ss_cur ss_nsg].
+  set (st := forget_nsg W (i_base W s)) in HI, HN, HC, Hnone, HInv |- *.
   pose proof (Memo_free W C st Hfree HN) as HM.
   destruct (s_view st) as [v|] eqn:Ev.
-  2:{ intros E; inversion E; subst. fold st. rewrite Ev. split; [reflexivity|]. exact HInv. }
+  2:{ intros E; inversion E; subst. cbn [i_base]. fold st. rewrite Ev, Hnone. split; [reflexivity|]. exact HInv. }
   destruct (s_evd st) as [e|] eqn:Ee.
-  2:{ intros E; inversion E; subst. fold st. rewrite Ev, Ee. split; [reflexivity|]. exact HInv. }
+  2:{ intros E; inversion E; subst. cbn [i_base]. fold st. rewrite Ev, Ee, Hnone. split; [reflexivity|]. exact HInv. }
+  assert (Evb : s_view (i_base W s) = Some v) by exact Ev.
+  assert (Eeb : s_evd (i_base W s) = Some e) by exact Ee.
   destruct (gfp_step W C st v ns x) as [st0 tg] eqn:Eg.
   destruct (gfp_step_spec W C _ _ _ _ _ _ HI HN Ev Eg) as (I0 & N0 & (Gv & Gsf & Gc & Ge & Gn) & HM0).
   destruct (HM0 HM) as (M0 & Ex).
@@ -1507,34 +1515,35 @@ Proof.
     + subst st0. destruct (i_c W s) as [[ck cx] co] eqn:Eic. cbn in Ek, Ex0. subst ck cx.
       destruct (proj2 HC x co v e eq_refl eq_refl eq_refl) as (o & Eo & Ep). subst co. cbn [snd].
       intros E; inversion E; subst; clear E. rewrite Ep. cbn.
-      split; [rewrite Ev, Ee; reflexivity|].
+      split; [rewrite ?Ev, ?Ee, ?Evb, ?Eeb; reflexivity|].
       destruct HI as (Hl & Hp & Hs & Hb).
       split; [apply CInv_set_bkg_nsg; [unfold CInv; auto | exact Hb]|].
-      split; [exact HN|]. cbn. rewrite Ev, Ee. exact HC.
-    + exfalso. destruct HC as (Hk & _). rewrite Ek in Hk. cbn in Hk. lia.
+      split; [exact HN|]. cbn. rewrite ?Ev, ?Ee, ?Evb, ?Eeb. exact HC.
+    + exfalso. destruct HC as (Hk & _). rewrite Ek in Hk. cbn in Hk.
+      change (s_sid st) with (s_sid (i_base W s)) in *. lia.
   - destruct (interp W C st0 (v, s_ext st0) e x) as [[st1 t1] r1] eqn:Ei.
     destruct (interp_spec W C Hgrid _ _ _ _ _ _ _ I0 Ev0 Ee0 Ei) as (R1 & I1 & F1).
     destruct F1 as (Fs & Fv & Ff & Fc & Fe & Fn & Fb & Fsf & Fgk & Fgv).
     assert (HC1 : forall c', ic_ok (s_sid st) (s_view st) (s_ext st) (s_evd st) c' ->
               fst (fst c') <> Some (s_sid st0) \/ st0 = st).
     { intros c' (Hk' & _). destruct (gfp_step_sid _ _ _ _ _ _ Eg) as [Es|Hlt]; [right; exact Es|].
-      left. intros E'. rewrite E' in Hk'. cbn in Hk'. lia. }
+      left. intros E'. rewrite E' in Hk'. cbn in Hk'. change (s_sid st) with (s_sid (i_base W s)) in *. lia. }
     destruct r1 as [o|er]; intros E; inversion E; subst; clear E; rewrite <- R1; cbn.
-    + split; [rewrite Fv, Fsf, Fc, Fe, Gv, Gsf, Gc, Ge, Ev, Ee; reflexivity|].
+    + split; [rewrite Fv, Fsf, Fc, Fe, Gv, Gsf, Gc, Ge, ?Ev, ?Ee, ?Evb, ?Eeb; reflexivity|].
       destruct I1 as (Hl & Hp & Hs & Hb).
       split; [apply CInv_set_bkg_nsg; [unfold CInv; auto | exact Hb]|].
       split; [unfold NoG in *; cbn; rewrite Fgv; exact N0|].
-      cbn. split; [cbn; lia|].
+      cbn. split; [cbn; change (s_sid st) with (s_sid (i_base W s)) in *; lia|].
       intros x0 co v' e' Ec Ev' Ee'. inversion Ec; subst. exists o. split; [reflexivity|].
       assert (v' = v) by congruence. assert (e' = e) by congruence. subst.
       change (s_ext (set_bkg_nsg W st1 (s_bkg st1) ?n)) with (s_ext st1).
       replace (s_ext st1) with (s_ext st0) by (unfold s_ext; congruence). symmetry. exact R1.
-    + split; [rewrite Fv, Fsf, Fc, Fe, Fn, Gv, Gsf, Gc, Ge, Gn, Ev, Ee; reflexivity|].
+    + split; [rewrite Fv, Fsf, Fc, Fe, Fn, Gv, Gsf, Gc, Ge, Gn, ?Ev, ?Ee, ?Evb, ?Eeb, ?Hnone; reflexivity|].
       split; [exact I1|]. split; [unfold NoG in *; cbn; rewrite Fgv; exact N0|]. cbn.
       destruct (gfp_step_sid _ _ _ _ _ _ Eg) as [Es|Hlt].
       * subst st0. rewrite Fs, Fv, Fe. replace (s_ext st1) with (s_ext st) by (unfold s_ext; congruence).
-        rewrite Ev, Ee. exact HC.
-      * apply (ic_ok_bump _ _ _ _ _ _ _ _ _ HC). lia.
+        rewrite ?Ev, ?Ee, ?Evb, ?Eeb. exact HC.
+      * apply (ic_ok_bump _ _ _ _ _ _ _ _ _ HC). change (s_sid st) with (s_sid (i_base W s)) in *. lia.
 Qed.
 
 Lemma i3step_spec s o s' ob t :
